@@ -52,8 +52,20 @@ def check(tier, seed, replay=None):
         meta["ss34"] = {"cases": len(cs), "simulated": nsim}
         cases += cs
     cpath = os.path.join(d, "cases.ndjson")
+    lpcases_ = [c for c in cases if "vars" in c]
+    cases = [c for c in cases if "vars" not in c]
+    if not replay:
+        from . import lpcases
+        for cfg, n, sim in [("Cont1.cfg", 400, None), ("Cont2.cfg", 700, None),
+                            ("SimCont3.cfg", 250 if tier == "quick" else 4000, (3 if tier == "quick" else 40, 9))]:
+            cs, m = lpcases.family(cfg, tier if sim is None else "quick", seed, n if tier == "quick" or sim else n * 20, sim)
+            meta["lp:" + cfg[:-4]] = m
+            lpcases_ += cs
     core.write_ndjson(cpath, cases)
-    events = core.rv(["simplex", "--cases", cpath])
+    events = core.rv(["simplex", "--cases", cpath]) if cases else []
+    if lpcases_:
+        events += core.rv_parallel("lpsimplex", lpcases_, prop + "-lp", procs=8)
+        cases = cases + lpcases_
     v = core.validate(SPEC_DIR, "SimplexTrace.tla", "SimplexTrace.cfg", events, prop, prop, chunks=12,
                       group=lambda e: e["run"].split("#")[0], heads=("RUN",))
     # design level: Simplex.tla on its own, every admissible pivot choice, and Bland's rule
@@ -72,7 +84,7 @@ def check(tier, seed, replay=None):
         cid = run.split("/")[0]
         case = bycase.get(cid, {"id": cid})
         mode = run.split("/")[1].split("#")[0] if "/" in run else "?"
-        sig = f"{mode}:{r[3]}:{json.dumps({k: case.get(k) for k in ('a','b','c','basis','z','den')}, sort_keys=True)}"
+        sig = f"{mode}:{r[3]}:{json.dumps({k: case.get(k) for k in ('a','b','c','basis','z','den','sense','obj','vars','rows')}, sort_keys=True)}"
         o.violation(sig, case, f"run {run}: {r[3]} (event {r[4]})")
     runs = v.other.get("RUN", [])
     piv = [r[3] for r in runs]
